@@ -41,7 +41,7 @@ fn literal_leaves() -> Vec<(String, RE)> {
         }
     }
     for (l, t) in [
-        ("empty", ""), ("quotes", "\"\""), ("backslashes", "\\\\"), ("quote-backslash", "\\\""), ("backslash-n", "\\n"), ("newline-tab-cr", "\n\t\r"), ("slashes", "// not a comment"),
+        ("empty", ""), ("quotes", "\"\""), ("ends-with-quote", "say \"hi\""), ("starts-with-quote", "\"hi\" said"), ("ends-with-backslash-quote", "a\\\""), ("only-quote", "\""), ("backslashes", "\\\\"), ("quote-backslash", "\\\""), ("backslash-n", "\\n"), ("newline-tab-cr", "\n\t\r"), ("slashes", "// not a comment"),
         ("non-bmp", "😀\u{10FFFF}"), ("bom", "\u{feff}"), ("line-sep", "\u{2028}\u{2029}\u{85}"), ("escape-lookalike", "\\u{41}"), ("trailing-backslash", "abc\\"), ("spaces", "  a  "),
     ] {
         s(l, t.to_string());
@@ -83,8 +83,13 @@ fn structural_cases(tier: Tier) -> Vec<Case> {
     let menu = leaf_menu();
     let mut out: Vec<Case> = Vec::new();
     let mut add = |label: String, tree: RE| {
+        // two routes into the parser's image: the minimal text (relies on the precedence table)
+        // and the fully parenthesised one (does not)
         if let Some(text) = tree.unparse() {
-            out.push(Case { label, text, tree });
+            out.push(Case { label: label.clone(), text, tree: tree.clone() });
+        }
+        if let Some(text) = tree.unparse_full() {
+            out.push(Case { label: format!("{label}/full-parens"), text, tree });
         }
     };
     // depth 1: every kind over every leaf of the menu (same leaf in all positions, and x elsewhere)
@@ -165,6 +170,12 @@ fn literal_cases() -> Vec<Case> {
     for (ll, leaf) in &leaves {
         if let Some(text) = leaf.unparse() {
             out.push(Case { label: format!("literal/{ll}"), text, tree: leaf.clone() });
+        }
+        // a second route into the image: every character of a string spelled as \u{hex}
+        if let RE::Val(RV::Str(s)) = leaf {
+            let esc: String = s.chars().map(|c| format!("\\u{{{:x}}}", c as u32)).collect();
+            out.push(Case { label: format!("literal/{ll}/escaped-spelling"), text: format!("\"{esc}\""), tree: leaf.clone() });
+            out.push(Case { label: format!("literal/{ll}/escaped-spelling-in-list"), text: format!("[\"{esc}\", x]"), tree: RE::List(vec![leaf.clone(), RE::reff("x")]) });
         }
         for p in &parents {
             let t = (p.build)((0..p.arity).map(|_| leaf.clone()).collect());
